@@ -43,6 +43,11 @@ RestartNext == \/ hist = <<>> /\ Add("n1", "http")
                \/ Len(hist) = 3 /\ Restart(FALSE)
                \/ Len(hist) = 4 /\ IF run["n1"] = "http" THEN Serve("n1", 0) ELSE Add("n1", "http")
 RestartSpec == Init /\ [][RestartNext]_vars
+(* two External listeners on one endpoint: the second is kept like any other, and adding it again is a duplicate name *)
+SharedNext == \/ hist = <<>> /\ Add("n1", "ext")
+              \/ Len(hist) = 1 /\ Add("n2", "extsame")
+              \/ Len(hist) = 2 /\ (Add("n2", "extsame") \/ Add("n2", "ext") \/ Add("n1", "ext"))
+SharedSpec == Init /\ [][SharedNext]_vars
 DupNext == \/ hist = <<>> /\ SvcConnect("s1", TRUE)
            \/ Len(hist) = 1 /\ SvcConnect("s2", TRUE)
            \/ Len(hist) = 2 /\ \E w \in {"agent", "listener", "exc2"} : SvcReg("s1", w, "x1")
